@@ -39,7 +39,6 @@ theorem exportEntries_ok {a e : TS} {fs : List TFile} {ar : Archive}
     split at h
     · simp at h
     · next htm =>
-      simp only [] at h
       split at h
       · simp at h
       · next hgap =>
@@ -138,12 +137,14 @@ theorem Block.overlaps_of_contains {b : Block} {a e t : TS} (h1 : b.lo ≤ t) (h
     (ha : a ≤ t) (he : t ≤ e) : b.overlaps a e = true := by
   unfold Block.overlaps
   simp only [Bool.or_eq_true, Bool.and_eq_true, decide_eq_true_eq]
+  unfold TS at *
   omega
 
-theorem Block.true_overlap_of_overlaps {b : Block} {a e : TS} (hlh : b.lo ≤ b.hi)
+theorem Block.true_overlap_of_overlaps {b : Block} {a e : TS} (hlh : b.lo ≤ b.hi) (hae : a ≤ e)
     (h : b.overlaps a e = true) : b.lo ≤ e ∧ b.hi ≥ a := by
   unfold Block.overlaps at h
   simp only [Bool.or_eq_true, Bool.and_eq_true, decide_eq_true_eq] at h
+  unfold TS at *
   omega
 
 /-- **one file**: inside [a,e] the exported block lists read exactly as the file's blocks -/
@@ -162,7 +163,6 @@ theorem bsLookup_exportBlocks (f : TFile) (hw : ∀ b ∈ f.blocks, b.WF) (a e :
   unfold exportBlocks
   by_cases h1 : f.needsFilter a e = true <;> by_cases h2 : f.inside a e = true
   · simp [h1, h2, bsLookup, hfilt]
-    cases blocksLookup f.blocks k t <;> simp
   · simp [h1, h2, bsLookup, hfilt]
   · simp [h1, h2, bsLookup]
   · simp only [h1, h2, if_false, List.append_nil, bsLookup, Bool.false_eq_true]
@@ -177,6 +177,7 @@ theorem bsLookup_exportBlocks (f : TFile) (hw : ∀ b ∈ f.blocks, b.WF) (a e :
       unfold TFile.needsFilter at h1
       unfold TFile.inside at h2
       simp only [Bool.or_eq_true, Bool.and_eq_true, decide_eq_true_eq, not_or, not_and] at h1 h2
+      unfold TS at *
       omega
 
 /-- **all files**: inside [a,e] the export reads exactly as the source files (no tombstones) -/
@@ -208,7 +209,7 @@ theorem bsLookup_some {xs : List (List Block)} {k : Key} {t : TS} {v : Val}
 
 /-- **upper bound**: every point an export reads belongs to a source block (of that
     key) that truly overlaps [a,e] -/
-theorem bsLookup_export_some (fs : List TFile) (hw : ∀ f ∈ fs, ∀ b ∈ f.blocks, b.WF) (a e : TS)
+theorem bsLookup_export_some (fs : List TFile) (hw : ∀ f ∈ fs, ∀ b ∈ f.blocks, b.WF) (a e : TS) (hae : a ≤ e)
     (k : Key) (t : TS) (v : Val) (h : bsLookup (fs.flatMap (exportBlocks a e)) k t = some v) :
     ∃ f ∈ fs, ∃ b ∈ f.blocks, b.lookup k t = some v ∧ b.key = k ∧ b.lo ≤ t ∧ t ≤ b.hi ∧ b.lo ≤ e ∧ b.hi ≥ a := by
   obtain ⟨bs, hbs, b, hb, hl⟩ := bsLookup_some h
@@ -219,7 +220,7 @@ theorem bsLookup_export_some (fs : List TFile) (hw : ∀ f ∈ fs, ∀ b ∈ f.b
     · simp at h1; subst h1
       have hb' := List.mem_filter.mp hb
       obtain ⟨hk, hlo, hhi⟩ := Block.lookup_some_bounds (hw f hf b hb'.1) hl
-      have := Block.true_overlap_of_overlaps (Int.le_trans hlo hhi) hb'.2
+      have := Block.true_overlap_of_overlaps (Int.le_trans hlo hhi) hae hb'.2
       exact ⟨f, hf, b, hb'.1, hl, hk, hlo, hhi, this.1, this.2⟩
     · simp at h1
   · split at h1
@@ -230,7 +231,7 @@ theorem bsLookup_export_some (fs : List TFile) (hw : ∀ f ∈ fs, ∀ b ∈ f.b
       have hmax := hi_le_maxTime hb
       unfold TFile.inside at hin
       simp only [Bool.and_eq_true, decide_eq_true_eq] at hin
-      exact ⟨f, hf, b, hb, hl, hk, hlo, hhi, by omega, by omega⟩
+      exact ⟨f, hf, b, hb, hl, hk, hlo, hhi, by unfold TS at *; omega, by unfold TS at *; omega⟩
     · simp at h1
 
 end Influx.Backup
